@@ -715,6 +715,36 @@ struct World
         }
         return twin[k];
     }
+    // ---- query world (family "query"): a long-lived Annotator with a model and one registered external variable, so that
+    // every getter of every service has a present, an absent and an out-of-range argument
+    AnnotatorPtr qAnnotator;
+    AnalyserExternalVariablePtr qExternal;
+    void setupQueryWorld()
+    {
+        auto m = arg(D_WS, 0);
+        qAnnotator = Annotator::create();
+        qAnnotator->setModel(m);
+        qExternal = AnalyserExternalVariable::create(m->component(0)->variable("a"));
+        analyser->addExternalVariable(qExternal);
+    }
+    // documented + reachable state of the long-lived instances, through their own getters (appended to every probe
+    // observation of the query family: an inert query leaves it exactly as it was). The query Annotator's issue list is the
+    // documented result channel of its lookups and is not part of it.
+    std::string stateDump()
+    {
+        std::string s = "\n== INSTANCE STATE\nimporter library=" + std::to_string(importer->libraryCount()) + " importSources=" + std::to_string(importer->importSourceCount()) + " strict=" + std::to_string(importer->isStrict()) + "\n";
+        for (size_t i = 0; i < importer->libraryCount() && i < 16; ++i) s += " library[" + std::to_string(i) + "] key=" + q(importer->key(i)) + " " + (importer->library(i) ? canonRaw(importer->library(i)) : std::string("<NULL-MODEL>")) + "\n";
+        s += "parserS strict=" + std::to_string(parserS->isStrict()) + " " + issuesDump(parserS) + "parserP strict=" + std::to_string(parserP->isStrict()) + " " + issuesDump(parserP);
+        s += "printer " + issuesDump(printer) + "validator " + issuesDump(validator) + "analyser " + issuesDump(analyser) + "importer " + issuesDump(importer);
+        s += "analyser externalVariables=" + std::to_string(analyser->externalVariableCount()) + " model: " + amDump(analyser->model());
+        s += std::string("generator profile=") + (generator->profile() ? "set" : "null") + " model: " + amDump(generator->model());
+        if (qAnnotator) {
+            s += "annotator hasModel=" + std::to_string(qAnnotator->hasModel()) + " ids:";
+            for (auto &id : qAnnotator->ids()) s += " " + id;
+            s += "\n";
+        }
+        return s;
+    }
     // the caller lets go of every model and every result it holds (the service instances stay)
     void dropAll()
     {
@@ -907,6 +937,8 @@ struct CaseResult
     std::vector<ProbeResult> probes; // indexed by position in the requested probe list
     json tuple;                      // abstract global state after the history (read in its own grandchild)
     std::string childCrash;
+    std::string queryResults; // what the queries of the history returned
+    bool queryStarted = false, queryDone = false;
 };
 struct RunMode
 {
@@ -915,7 +947,131 @@ struct RunMode
     bool parsedArgs = false;
     bool repeat = true;     // second call on the same instance
     bool dropAfterOps = false; // twin family: after every history op the caller destroys every model and result it holds
+    bool queryWorld = false;   // query family: query Annotator + external variable set up; instance state appended to every observation
 };
+
+// =================================================================== the QUERY alphabet: every getter / lookup of every
+// long-lived service instance with present, absent and out-of-range arguments. A query is encoded in a history as a negative
+// number: -(1+g) = the single getter g, -(1001+s) = sweep s (all getters of one group, in order).
+struct Query
+{
+    int group;
+    std::string name;
+    std::function<std::string(World &)> fn;
+};
+const char *queryGroupName(int g)
+{
+    static const char *N[] = {"Importer::library(key)", "Importer:by-index-and-counts", "Logger-getters-of-every-service", "Annotator:lookups-of-known-ids", "Annotator:lookups-of-unknown-ids-wrong-kinds-out-of-range",
+                              "Annotator:enumerations", "Analyser:getters-and-external-variable-lookups", "Generator:getters-and-repeated-code", "strict-flags"};
+    return N[g];
+}
+const int NGROUPS = 9;
+std::string pres(bool b) { return b ? "present" : "absent"; }
+std::string loggerSweep(const LoggerPtr &l)
+{
+    std::string s = std::to_string(l->issueCount()) + "/" + std::to_string(l->errorCount()) + "/" + std::to_string(l->warningCount()) + "/" + std::to_string(l->messageCount());
+    for (size_t i : {size_t(0), l->issueCount() ? l->issueCount() - 1 : size_t(0), l->issueCount(), size_t(9999), size_t(-1)})
+        s += std::string(" ") + (l->issue(i) ? "i" : "-") + (l->error(i) ? "e" : "-") + (l->warning(i) ? "w" : "-") + (l->message(i) ? "m" : "-");
+    return s;
+}
+const std::vector<Query> &queries()
+{
+    static std::vector<Query> Q;
+    if (!Q.empty()) return Q;
+    auto add = [&](int g, const std::string &n, std::function<std::string(World &)> f) { Q.push_back({g, n, f}); };
+    // --- Importer::library(key): the keys the documents of the alphabet use (raw url, resolved path, twin path), a foreign one, the empty one
+    add(0, "Importer::library(key=url-of-the-import-document)", [](World &w) { return pres(w.importer->library("c12_lib.cellml") != nullptr); });
+    add(0, "Importer::library(key=resolved-path-of-the-import)", [](World &w) { return pres(w.importer->library(libDir() + "/c12_lib.cellml") != nullptr); });
+    add(0, "Importer::library(key=resolved-path-of-the-twin-import)", [](World &w) { return pres(w.importer->library(libDir() + "/twin/c12_lib.cellml") != nullptr); });
+    add(0, "Importer::library(key=never-imported)", [](World &w) { return pres(w.importer->library("nope.cellml") != nullptr); });
+    add(0, "Importer::library(key=empty)", [](World &w) { return pres(w.importer->library("") != nullptr); });
+    // --- Importer by index / counts
+    add(1, "Importer::libraryCount()", [](World &w) { return std::to_string(w.importer->libraryCount()); });
+    add(1, "Importer::library(index=0)", [](World &w) { return pres(w.importer->library(size_t(0)) != nullptr); });
+    add(1, "Importer::library(index=count)", [](World &w) { return pres(w.importer->library(w.importer->libraryCount()) != nullptr); });
+    add(1, "Importer::library(index=9999)", [](World &w) { return pres(w.importer->library(size_t(9999)) != nullptr); });
+    add(1, "Importer::key(index=0)", [](World &w) { return pres(!w.importer->key(0).empty()); });
+    add(1, "Importer::key(index=count)", [](World &w) { return pres(!w.importer->key(w.importer->libraryCount()).empty()); });
+    add(1, "Importer::key(index=9999)", [](World &w) { return pres(!w.importer->key(9999).empty()); });
+    add(1, "Importer::importSourceCount()", [](World &w) { return std::to_string(w.importer->importSourceCount()); });
+    add(1, "Importer::importSource(index=0)", [](World &w) { return pres(w.importer->importSource(0) != nullptr); });
+    add(1, "Importer::importSource(index=9999)", [](World &w) { return pres(w.importer->importSource(9999) != nullptr); });
+    // --- Logger side of every service
+    add(2, "Logger-getters(strict Parser)", [](World &w) { return loggerSweep(w.parserS); });
+    add(2, "Logger-getters(permissive Parser)", [](World &w) { return loggerSweep(w.parserP); });
+    add(2, "Logger-getters(Printer)", [](World &w) { return loggerSweep(w.printer); });
+    add(2, "Logger-getters(Validator)", [](World &w) { return loggerSweep(w.validator); });
+    add(2, "Logger-getters(Analyser)", [](World &w) { return loggerSweep(w.analyser); });
+    add(2, "Logger-getters(Importer)", [](World &w) { return loggerSweep(w.importer); });
+    add(2, "Logger-getters(Annotator)", [](World &w) { return loggerSweep(w.qAnnotator); });
+    // --- Annotator lookups, known ids (the query Annotator holds the "ws" model: ids mid, cid, u1, vx)
+    add(3, "Annotator::item(id=known)", [](World &w) { auto i = w.qAnnotator->item("vx"); return pres(i && i->variable()); });
+    add(3, "Annotator::item(id=known,index=0)", [](World &w) { auto i = w.qAnnotator->item("vx", 0); return pres(i && i->variable()); });
+    add(3, "Annotator::variable(id=known)", [](World &w) { return pres(w.qAnnotator->variable("vx") != nullptr); });
+    add(3, "Annotator::component(id=known)", [](World &w) { return pres(w.qAnnotator->component("cid") != nullptr); });
+    add(3, "Annotator::model(id=known)", [](World &w) { return pres(w.qAnnotator->model("mid") != nullptr); });
+    add(3, "Annotator::units(id=known)", [](World &w) { return pres(w.qAnnotator->units("u1") != nullptr); });
+    add(3, "Annotator::itemCount(id=known)", [](World &w) { return std::to_string(w.qAnnotator->itemCount("vx")); });
+    add(3, "Annotator::isUnique(id=known)", [](World &w) { return std::to_string(w.qAnnotator->isUnique("vx")); });
+    add(3, "Annotator::items(id=known)", [](World &w) { return std::to_string(w.qAnnotator->items("vx").size()); });
+    // --- Annotator lookups, unknown ids / wrong kinds / out of range
+    add(4, "Annotator::item(id=unknown)", [](World &w) { auto i = w.qAnnotator->item("nope"); return pres(i && i->type() != CellmlElementType::UNDEFINED); });
+    add(4, "Annotator::item(id=known,index=out-of-range)", [](World &w) { auto i = w.qAnnotator->item("vx", 7); return pres(i && i->type() != CellmlElementType::UNDEFINED); });
+    add(4, "Annotator::variable(id=of-a-component)", [](World &w) { return pres(w.qAnnotator->variable("cid") != nullptr); });
+    add(4, "Annotator::component(id=of-a-variable)", [](World &w) { return pres(w.qAnnotator->component("vx") != nullptr); });
+    add(4, "Annotator::model(id=unknown)", [](World &w) { return pres(w.qAnnotator->model("nope") != nullptr); });
+    add(4, "Annotator::units(id=unknown)", [](World &w) { return pres(w.qAnnotator->units("nope") != nullptr); });
+    add(4, "Annotator::reset(id=unknown)", [](World &w) { return pres(w.qAnnotator->reset("nope") != nullptr); });
+    add(4, "Annotator::unitsItem(id=unknown)", [](World &w) { return pres(w.qAnnotator->unitsItem("nope") != nullptr); });
+    add(4, "Annotator::importSource(id=unknown)", [](World &w) { return pres(w.qAnnotator->importSource("nope") != nullptr); });
+    add(4, "Annotator::mapVariables(id=unknown)", [](World &w) { return pres(w.qAnnotator->mapVariables("nope") != nullptr); });
+    add(4, "Annotator::connection(id=unknown)", [](World &w) { return pres(w.qAnnotator->connection("nope") != nullptr); });
+    add(4, "Annotator::testValue(id=unknown)", [](World &w) { return pres(w.qAnnotator->testValue("nope") != nullptr); });
+    add(4, "Annotator::resetValue(id=unknown)", [](World &w) { return pres(w.qAnnotator->resetValue("nope") != nullptr); });
+    add(4, "Annotator::componentEncapsulation(id=unknown)", [](World &w) { return pres(w.qAnnotator->componentEncapsulation("nope") != nullptr); });
+    add(4, "Annotator::encapsulation(id=unknown)", [](World &w) { return pres(w.qAnnotator->encapsulation("nope") != nullptr); });
+    add(4, "Annotator::itemCount(id=unknown)", [](World &w) { return std::to_string(w.qAnnotator->itemCount("nope")); });
+    add(4, "Annotator::isUnique(id=unknown)", [](World &w) { return std::to_string(w.qAnnotator->isUnique("nope")); });
+    add(4, "Annotator::items(id=unknown)", [](World &w) { return std::to_string(w.qAnnotator->items("nope").size()); });
+    // --- Annotator enumerations
+    add(5, "Annotator::ids()", [](World &w) { return std::to_string(w.qAnnotator->ids().size()); });
+    add(5, "Annotator::duplicateIds()", [](World &w) { return std::to_string(w.qAnnotator->duplicateIds().size()); });
+    add(5, "Annotator::hasModel()", [](World &w) { return std::to_string(w.qAnnotator->hasModel()); });
+    // --- Analyser
+    add(6, "Analyser::model()", [](World &w) { auto m = w.analyser->model(); return m ? AnalyserModel::typeAsString(m->type()) : std::string("null"); });
+    add(6, "Analyser::externalVariableCount()", [](World &w) { return std::to_string(w.analyser->externalVariableCount()); });
+    add(6, "Analyser::externalVariable(index=0)", [](World &w) { return pres(w.analyser->externalVariable(0) != nullptr); });
+    add(6, "Analyser::externalVariable(index=count)", [](World &w) { return pres(w.analyser->externalVariable(w.analyser->externalVariableCount()) != nullptr); });
+    add(6, "Analyser::externalVariable(index=9999)", [](World &w) { return pres(w.analyser->externalVariable(9999) != nullptr); });
+    add(6, "Analyser::externalVariable(model,component,variable=registered)", [](World &w) { return pres(w.analyser->externalVariable(w.arg(D_WS, 0), "c", "a") != nullptr); });
+    add(6, "Analyser::externalVariable(model,component,variable=not-registered)", [](World &w) { return pres(w.analyser->externalVariable(w.arg(D_WS, 0), "c", "y") != nullptr); });
+    add(6, "Analyser::externalVariable(model,component=unknown,variable)", [](World &w) { return pres(w.analyser->externalVariable(w.arg(D_WS, 0), "nope", "a") != nullptr); });
+    add(6, "Analyser::externalVariable(model,component,variable=unknown)", [](World &w) { return pres(w.analyser->externalVariable(w.arg(D_WS, 0), "c", "nope") != nullptr); });
+    add(6, "Analyser::containsExternalVariable(model,component,variable=registered)", [](World &w) { return std::to_string(w.analyser->containsExternalVariable(w.arg(D_WS, 0), "c", "a")); });
+    add(6, "Analyser::containsExternalVariable(model,component,variable=unknown)", [](World &w) { return std::to_string(w.analyser->containsExternalVariable(w.arg(D_WS, 0), "c", "nope")); });
+    add(6, "Analyser::containsExternalVariable(object=registered)", [](World &w) { return std::to_string(w.analyser->containsExternalVariable(w.qExternal)); });
+    add(6, "Analyser::containsExternalVariable(object=not-registered)", [](World &w) { return std::to_string(w.analyser->containsExternalVariable(AnalyserExternalVariable::create(w.arg(D_WS, 0)->component(0)->variable("y")))); });
+    // --- Generator
+    add(7, "Generator::profile()", [](World &w) { return pres(w.generator->profile() != nullptr); });
+    add(7, "Generator::model()", [](World &w) { return pres(w.generator->model() != nullptr); });
+    add(7, "Generator::interfaceCode()-twice", [](World &w) { auto a = w.generator->interfaceCode(), b = w.generator->interfaceCode(); return std::string(a == b ? "same" : "DIFFERENT") + ":" + std::to_string(a.size()); });
+    add(7, "Generator::implementationCode()-twice", [](World &w) { auto a = w.generator->implementationCode(), b = w.generator->implementationCode(); return std::string(a == b ? "same" : "DIFFERENT") + ":" + std::to_string(a.size()); });
+    // --- strict flags
+    add(8, "Parser::isStrict()(strict)", [](World &w) { return std::to_string(w.parserS->isStrict()); });
+    add(8, "Parser::isStrict()(permissive)", [](World &w) { return std::to_string(w.parserP->isStrict()); });
+    add(8, "Importer::isStrict()", [](World &w) { return std::to_string(w.importer->isStrict()); });
+    return Q;
+}
+std::string stepName(int op);
+std::string runQueryStep(World &w, int code)
+{
+    std::string r;
+    auto &Q = queries();
+    if (code == -2001) { for (auto &qq : Q) r += qq.name + " -> " + qq.fn(w) + "\n"; }
+    else if (code <= -1001) { int g = -code - 1001; for (auto &qq : Q) if (qq.group == g) r += qq.name + " -> " + qq.fn(w) + "\n"; }
+    else { auto &qq = Q[size_t(-code - 1)]; r = qq.name + " -> " + qq.fn(w) + "\n"; }
+    return r;
+}
 
 void writeAll(int fd, const std::string &s)
 {
@@ -933,6 +1089,7 @@ void probeBody(World &w, int p, const RunMode &mode, int fd)
     std::vector<Finding> fs;
     std::string args = w.argsKey(p);
     std::string o1 = w.apply(p, fs);
+    if (mode.queryWorld) o1 += w.stateDump();
     if (mode.restoreKb) G.restoreKeepBlanks();
     if (mode.repeat) {
         std::string o2 = w.apply(p, fs);
@@ -965,9 +1122,10 @@ Running startCase(const std::vector<int> &hist, const std::vector<int> &probes, 
         int fd = pfd[1];
         alarm(600);
         std::unique_ptr<World> w;
-        if (!mode.stateless) { w.reset(new World); w->parsedArgs = mode.parsedArgs; }
+        if (!mode.stateless) { w.reset(new World); w->parsedArgs = mode.parsedArgs; if (mode.queryWorld) w->setupQueryWorld(); }
         std::vector<Finding> sinkF;
         for (int op : hist) {
+            if (op < 0) { emit(fd, {{"t", "query-starts"}, {"q", op}}); emit(fd, {{"t", "query"}, {"q", op}, {"result", runQueryStep(*w, op)}}); continue; }
             if (mode.stateless) { World t; t.apply(op, sinkF); }
             else { w->apply(op, sinkF); w->checkHeld(sigma()[size_t(op)].name, sinkF); if (mode.dropAfterOps) w->dropAll(); }
             if (mode.restoreKb) G.restoreKeepBlanks();
@@ -1022,6 +1180,8 @@ CaseResult finishCase(Running &r)
         if (j.is_discarded()) continue;
         std::string t = j["t"];
         if (t == "history-done") historyDone = true;
+        else if (t == "query-starts") res.queryStarted = true;
+        else if (t == "query") { res.queryDone = true; res.queryResults += j["result"].get<std::string>(); }
         else if (t == "tuple") res.tuple = j["tuple"];
         else if (t == "probe" || t == "crash") {
             int p = j["p"];
@@ -1056,8 +1216,15 @@ std::vector<int> allProbes()
 json histNames(const std::vector<int> &h)
 {
     json a = json::array();
-    for (int o : h) a.push_back(sigma()[size_t(o)].name);
+    for (int o : h) a.push_back(stepName(o));
     return a;
+}
+std::string stepName(int op)
+{
+    if (op >= 0) return sigma()[size_t(op)].name;
+    if (op == -2001) return "QUERIES{every getter of every service}";
+    if (op <= -1001) return std::string("QUERIES{") + queryGroupName(-op - 1001) + "}";
+    return "QUERY " + queries()[size_t(-op - 1)].name;
 }
 json diffExcerpt(const std::string &a, const std::string &b)
 {
@@ -1255,6 +1422,116 @@ Family twinFamily(const std::string &name)
                   [](uint64_t i) { sigma(); ALPHA = 1; return json{{"history", histNames(twinHistAt(i % twinHistCount()))}, {"caller_destroys_models_and_results_after_each_op", i >= twinHistCount()}, {"probes", "every operation of the twin alphabet"}, {"alphabet_size", TWIN_ALPHABET.size()}}; }};
 }
 
+// Query family: queries are INERT. For every history h of length <= 1 over the main alphabet and every position, the history
+// with a query (sweep) inserted there must be followed by exactly the observations (all probes, findings, crashes, and the
+// documented + reachable state of every long-lived instance) that follow h itself. index = position * NV + variant;
+// variants: the 9 sweeps (one per service/argument class), with C12_QUERY_SINGLES=1 also every single getter; the *_asan
+// family has one variant: all getters at once. A sweep that is not inert is bisected to the single getter(s).
+int queryVariants(bool all)
+{
+    if (all) return 1;
+    const char *e = getenv("C12_QUERY_SINGLES");
+    return NGROUPS + ((e && atoi(e)) ? int(queries().size()) : 0);
+}
+uint64_t queryPositions() { ALPHA = 0; return 1 + 2 * uint64_t(NOPS()); }
+void queryDecode(uint64_t i, bool all, std::vector<int> &base, std::vector<int> &withq, int &code)
+{
+    ALPHA = 0;
+    uint64_t nv = uint64_t(queryVariants(all)), j = i / nv, v = i % nv;
+    code = all ? -2001 : (v < uint64_t(NGROUPS) ? -(1001 + int(v)) : -(1 + int(v - NGROUPS)));
+    base.clear();
+    if (j == 0) { withq = {code}; return; }
+    int a = alphabet()[size_t((j - 1) / 2)];
+    base = {a};
+    withq = ((j - 1) % 2 == 0) ? std::vector<int>{code, a} : std::vector<int>{a, code};
+}
+struct QueryDiff
+{
+    bool differs = false, crashes = false;
+    json probes = json::array();
+    json first;
+};
+QueryDiff compareRuns(const CaseResult &R0, const CaseResult &Rq)
+{
+    QueryDiff d;
+    for (size_t k = 0; k < R0.probes.size() && k < Rq.probes.size(); ++k) {
+        const auto &a = R0.probes[k];
+        const auto &b = Rq.probes[k];
+        std::set<std::string> fa, fb;
+        for (auto &f : a.findings) fa.insert(f.sig);
+        for (auto &f : b.findings) fb.insert(f.sig);
+        bool diff = a.ran != b.ran || a.crash != b.crash || a.args != b.args || a.obs != b.obs || fa != fb;
+        if (!diff) continue;
+        d.differs = true;
+        if (a.crash != b.crash && !b.crash.empty()) d.crashes = true;
+        d.probes.push_back(sigma()[size_t(a.p)].name + (a.crash != b.crash ? " [" + (b.crash.empty() ? std::string("no longer crashes") : "crashes: " + b.crash) + "]" : ""));
+        if (d.first.is_null()) { d.first = diffExcerpt(a.obs, b.obs); d.first["probe"] = sigma()[size_t(a.p)].name; }
+    }
+    return d;
+}
+Family queryFamily(const std::string &name, bool all)
+{
+    return Family{name, [all] { sigma(); return queryPositions() * uint64_t(queryVariants(all)); },
+                  [all](uint64_t i, Ctx &ctx) {
+                      sigma();
+                      ALPHA = 0;
+                      ensureLibrary();
+                      RunMode m;
+                      m.repeat = false;
+                      m.queryWorld = true;
+                      std::vector<int> base, withq;
+                      int code;
+                      queryDecode(i, all, base, withq, code);
+                      static std::vector<int> cachedBase = {-999999};
+                      static CaseResult R0;
+                      if (cachedBase != base) { R0 = runCase(base, allProbes(), m); cachedBase = base; }
+                      if (!R0.childCrash.empty()) { ctx.outcome("history-without-query-crashes(not judged here)"); return; }
+                      auto runWith = [&](int c) {
+                          std::vector<int> h;
+                          for (int o : withq) h.push_back(o < 0 ? c : o);
+                          return runCase(h, allProbes(), m);
+                      };
+                      auto report = [&](int c, const CaseResult &Rq) -> bool {
+                          std::vector<int> h;
+                          for (int o : withq) h.push_back(o < 0 ? c : o);
+                          json d = {{"history_with_query", histNames(h)}, {"history_without", histNames(base)}, {"query_returned", safe(Rq.queryResults, 3000)}};
+                          if (!Rq.childCrash.empty()) {
+                              ctx.violation((Rq.queryStarted && !Rq.queryDone ? "crash:in-query:" : "query-not-inert:history-crashes-after:") + stepName(c) + ":" + Rq.childCrash, d);
+                              return true;
+                          }
+                          QueryDiff q = compareRuns(R0, Rq);
+                          if (!q.differs) return false;
+                          d["probes_that_observe_differently"] = q.probes;
+                          d["first_difference"] = q.first;
+                          ctx.violation("query-not-inert:" + stepName(c) + (q.crashes ? ":a-later-call-crashes" : ":later-observations-or-instance-state-differ"), d);
+                          return true;
+                      };
+                      CaseResult Rq = runWith(code);
+                      ctx.judged += uint64_t(NOPS());
+                      for (size_t pos = 0; (pos = Rq.queryResults.find("-> present", pos)) != std::string::npos; ++pos) ctx.count("query_answers_present");
+                      for (size_t pos = 0; (pos = Rq.queryResults.find("-> absent", pos)) != std::string::npos; ++pos) ctx.count("query_answers_absent");
+                      bool bad = !Rq.childCrash.empty() || compareRuns(R0, Rq).differs;
+                      if (!bad) { ctx.outcome(std::string("inert|") + (code <= -1001 ? "sweep" : "single-getter") + "|position=" + (base.empty() ? "alone" : (withq[0] < 0 ? "before-op" : "after-op"))); return; }
+                      ctx.outcome("not-inert");
+                      if (code > -1001) { report(code, Rq); return; }
+                      // bisect the sweep to the single getters
+                      bool named = false;
+                      for (size_t g = 0; g < queries().size(); ++g) {
+                          if (code != -2001 && queries()[g].group != -code - 1001) continue;
+                          CaseResult Rs = runWith(-(1 + int(g)));
+                          if (report(-(1 + int(g)), Rs)) named = true;
+                      }
+                      if (!named) report(code, Rq); // only the combination shows it
+                  },
+                  [all](uint64_t i) {
+                      sigma();
+                      std::vector<int> base, withq;
+                      int code;
+                      queryDecode(i, all, base, withq, code);
+                      return json{{"history_with_query", histNames(withq)}, {"compared_with", histNames(base)}, {"probes", "every operation of the main alphabet + state of every long-lived instance"}};
+                  }};
+}
+
 // BFS to closure over the abstract global-state tuple; ops in fresh worlds
 void closureRun(uint64_t, Ctx &ctx)
 {
@@ -1365,6 +1642,8 @@ int main(int argc, char **argv)
         histFamily("hist_asan"), // same cases; separate name so that the ASan sub-family is accounted separately
         twinFamily("twin"),
         twinFamily("twin_asan"),
+        queryFamily("query", false),
+        queryFamily("query_asan", true),
         Family{"closure", [] { return uint64_t(1); }, closureRun,
                [](uint64_t) { json a = json::array(); for (auto &o : sigma()) a.push_back(o.name); return json{{"alphabet", a}, {"state", "abstract tuple of libxml2 globals + DTD flag"}}; }},
         Family{"selftest", [] { return uint64_t(serviceOps().size()); }, selftestRun, [](uint64_t i) { return json{{"probe", sigma()[size_t(serviceOps()[size_t(i)])].name}}; }},
